@@ -142,4 +142,8 @@ MUTANTS += [
          edits=[dict(file="write_font.py", old='        ttfont = ufo2ft.compileTTF(ufo, overlapsBackend="pathops")', new='        ttfont = ufo2ft.compileTTF(ufo, removeOverlaps=True, overlapsBackend="pathops")')]),
     dict(id="c03-benign-remove-overlaps-false", props=["C03"], expect="silent",
          edits=[dict(file="write_font.py", old='        ttfont = ufo2ft.compileTTF(ufo, overlapsBackend="pathops")', new='        ttfont = ufo2ft.compileTTF(ufo, removeOverlaps=False, overlapsBackend="pathops")')]),
+    dict(id="c14-revert-fix-D11", props=["C14"], expect="R14g",
+         edits=[dict(file="bitmap_tables.py", old="round(line_ascent - 0.5 * (line_height - image_data.size[1])),", new="round(line_ascent - 0.5 * (line_height - config.bitmap_resolution)),")]),
+    dict(id="c14-y-offset-uses-width", props=["C14"], expect="R14g",
+         edits=[dict(file="bitmap_tables.py", old="round(line_ascent - 0.5 * (line_height - image_data.size[1])),", new="round(line_ascent - 0.5 * (line_height - image_data.size[0])),")]),
 ]
